@@ -122,15 +122,25 @@ def trimSpaces (l : List Nat) : List Nat :=
     | c :: rest, kept, pend => go rest (kept ++ pend ++ [c]) []
   go l [] []
 
+/-- a leading `!` negates -/
+def stripNeg (l : List Nat) : Bool × List Nat :=
+  if l.head? == some 33 then (true, l.drop 1) else (false, l)
+
+/-- a trailing `/` restricts the pattern to directories -/
+def stripDir (l : List Nat) : Bool × List Nat :=
+  if l.getLast? == some 47 then (true, l.dropLast) else (false, l)
+
+/-- a leading `/` only anchors; it is not part of the text that is matched -/
+def stripLead (l : List Nat) : List Nat :=
+  if l.head? == some 47 then l.drop 1 else l
+
 /-- `add_patterns_from_buffer` + `parse_path_pattern` for one line (without its line terminator);
 `none` for comments and empty lines -/
 def parsePat (line : List Nat) : Option Pat :=
   if line.isEmpty || line.head? == some 35 then none else
-  let l := trimSpaces line
-  let (neg, l) := if l.head? == some 33 then (true, l.drop 1) else (false, l)
-  let (dir, l) := if l.getLast? == some 47 then (true, l.dropLast) else (false, l)
-  let noDir := !l.contains 47
-  some { negative := neg, mustBeDir := dir, noDir := noDir, text := if l.head? == some 47 then l.drop 1 else l }
+  let n := stripNeg (trimSpaces line)
+  let d := stripDir n.2
+  some { negative := n.1, mustBeDir := d.1, noDir := !d.2.contains 47, text := stripLead d.2 }
 
 def joinComps : List Bytes → Bytes
   | [] => []
